@@ -1658,7 +1658,9 @@ class _Serializer:
             meth: Callable[[_Serializer, object], None] | None = getattr(
                 self.__class__, methodname, None
             )
-            if meth is None:
+            # dispatch is by type name: make sure it really is the builtin
+            # type (or Channel) and not a user class of the same name
+            if meth is None or not (tp is Channel or tp.__module__ == "builtins"):
                 raise DumpError(f"can't serialize {tp}") from None
             dispatch = self._dispatch[tp] = meth
         dispatch(self, obj)
